@@ -142,7 +142,7 @@ def run(ctx):
     C.gen_history = mixed
     try:
         import itertools
-        for r in itertools.chain(C.explore(ctx, ctx.n(400, 6000), 10, c03.STYLES, p_invalid=0.1, observe=observe),
+        for r in itertools.chain(C.explore(ctx, ctx.n(400, 6000), 10, c03.STYLES_WF, p_invalid=0.1, observe=observe),
                                  C.explore_equal_sizes_big(ctx, observe=observe)):
             ctx.case((r.desc, str(C.jsonable_hist(r.hist))), nontrivial=C.nontrivial_history(r),
                      sample=dict(start=r.desc, ops=[s["op"][0] + ":" + s["real"] for s in r.steps]), tags=C.history_tags(r))
